@@ -61,6 +61,9 @@ class PeerWorld(World):
         self.escaped = []
         self.user_results = []
         self.collect(('init',))
+        if prm.get('peer_first') is not None:
+            # the peer's first octets are already there when the endpoint's loop runs for the first time
+            self.peer_write(bytes.fromhex(prm['peer_first']))
         self.quiesce()
         for data in prm['queued']:
             res = self.bus_call(proc, PATH, 'send_bundle_data', bytes.fromhex(data), iface=IFACE)
